@@ -717,6 +717,8 @@ def solver_group():
         if sol is None:
             raise TranslateError(sol_err)
         lp = sol.loop("tfftp00")
+        if lp["iter"].replace(" ", "") != "range(nz-1)":
+            raise TranslateError("mean-mode loop runs over `%s`, not over all nz-1 layers" % lp["iter"])
         v = lp["final"]["tfftp00"]
         if not isinstance(v, E):
             raise TranslateError("mean-mode update: %s" % getattr(v, "why", v))
@@ -1024,6 +1026,17 @@ def tables_group():
         g.report["levelStore"] = "ok"
     except Exception as e:  # noqa: BLE001
         g.report["levelStore"] = "FAILED: %r" % (e,)
+    # C08/C17: the guard under which tower coordinates are converted (`is not None`, not truthiness)
+    try:
+        ctree3 = ast.parse(open(os.path.join(REPO_SRC, "config_parser.py")).read())
+        pi = [n for n in ast.walk(ctree3) if isinstance(n, ast.FunctionDef) and n.name == "__post_init__"][0]
+        guards = [ast.unparse(n.test) for n in ast.walk(pi) if isinstance(n, ast.If)]
+        calls3 = [ast.unparse(n) for n in ast.walk(pi) if isinstance(n, ast.Call) and "compute_local_xy" in ast.unparse(n.func)]
+        clx = [n for n in ast.walk(ctree3) if isinstance(n, ast.FunctionDef) and n.name == "compute_local_xy"][0]
+        lines.append("def towerLocalXY : List String := %s" % lean_strs(guards + calls3 + [ast.unparse(x) for x in clx.body if not (isinstance(x, ast.Expr) and isinstance(x.value, ast.Constant))]))
+        g.report["towerLocalXY"] = "ok"
+    except Exception as e:  # noqa: BLE001
+        g.report["towerLocalXY"] = "FAILED: %r" % (e,)
     # C14: statement structure of the serial and parallel drivers (canonical text, docstrings and logging dropped)
     try:
         itree2 = ast.parse(open(os.path.join(REPO_SRC, "interface.py")).read())
